@@ -584,8 +584,9 @@ var c16TxMenu = []c16Op{{kind: c16OpTHash}, {kind: c16OpTMsgTx}, {kind: c16OpTIn
 	{c16OpTSetIndex, 0}, {c16OpTSetIndex, 2}, {c16OpTSetIndex, bchutil.TxIndexUnknown}}
 
 var c16BlockCtors = []string{"NewBlock", "NewBlockFromBytes", "NewBlockFromReader", "NewBlockFromBlockAndBytes", "NewBlockFromBytes+trailing", "NewBlockFromReader+trailing",
-	"NewBlockFromReader+onebyte", "NewBlockFromReader+half"} // readers that deliver less than asked for (a network connection)
-var c16TxCtors = []string{"NewTx", "NewTxFromBytes", "NewTxFromReader", "NewTxFromBytes+trailing", "NewTxFromReader+trailing", "NewTxFromReader+onebyte", "NewTxFromReader+half"}
+	"NewBlockFromReader+onebyte", "NewBlockFromReader+half", // readers that deliver less than asked for (a network connection)
+	"NewBlockFromReader+offset", "NewBlockFromReader+second"} // a *bytes.Reader that does not stand at its beginning: after an 8-byte record header / after another block read from the same reader
+var c16TxCtors = []string{"NewTx", "NewTxFromBytes", "NewTxFromReader", "NewTxFromBytes+trailing", "NewTxFromReader+trailing", "NewTxFromReader+onebyte", "NewTxFromReader+half", "NewTxFromReader+offset"}
 
 // c16Reader: the reader handed to a from-reader constructor
 func c16Reader(ctor string, b []byte) io.Reader {
@@ -594,6 +595,17 @@ func c16Reader(ctor string, b []byte) io.Reader {
 		return iotest.OneByteReader(bytes.NewReader(b))
 	case strings.HasSuffix(ctor, "+half"):
 		return iotest.HalfReader(bytes.NewReader(b))
+	case strings.HasSuffix(ctor, "+offset"): // magic + length in front, already consumed; a few bytes behind
+		r := bytes.NewReader(append(append([]byte{0xe3, 0xe1, 0xf3, 0xe8, 1, 2, 3, 4}, b...), 0xaa, 0xbb))
+		r.Seek(8, io.SeekStart)
+		return r
+	case strings.HasSuffix(ctor, "+second"): // another block (the two-transaction fixture) read from the same reader first
+		first := c16BlockRefs["b2"].ser
+		r := bytes.NewReader(append(append([]byte{}, first...), b...))
+		if ob, err := bchutil.NewBlockFromReader(r); err != nil || ob == nil {
+			panic("C16: first block of a two-block reader does not parse")
+		}
+		return r
 	}
 	return bytes.NewReader(b)
 }
@@ -1215,7 +1227,7 @@ func c16RunBlock(w *mc.W, fixture, ctor string, ops []c16Op, wantKey, sweep bool
 		case "NewBlockFromBytes", "NewBlockFromBytes+trailing":
 			b, err = bchutil.NewBlockFromBytes(ser)
 			r.bytesCached = true
-		case "NewBlockFromReader", "NewBlockFromReader+trailing", "NewBlockFromReader+onebyte", "NewBlockFromReader+half":
+		case "NewBlockFromReader", "NewBlockFromReader+trailing", "NewBlockFromReader+onebyte", "NewBlockFromReader+half", "NewBlockFromReader+offset", "NewBlockFromReader+second":
 			b, err = bchutil.NewBlockFromReader(c16Reader(ctor, ser))
 		case "NewBlockFromBlockAndBytes":
 			b = bchutil.NewBlockFromBlockAndBytes(c16BuildBlock(fixture), append([]byte{}, ref.ser...))
@@ -1356,7 +1368,7 @@ func c16RunTx(w *mc.W, name, ctor string, ops []c16Op, wantKey, sweep bool) (key
 			t = bchutil.NewTx(c16BuildTx(name))
 		case "NewTxFromBytes", "NewTxFromBytes+trailing":
 			t, err = bchutil.NewTxFromBytes(ref.input(ctor))
-		case "NewTxFromReader", "NewTxFromReader+trailing", "NewTxFromReader+onebyte", "NewTxFromReader+half":
+		case "NewTxFromReader", "NewTxFromReader+trailing", "NewTxFromReader+onebyte", "NewTxFromReader+half", "NewTxFromReader+offset":
 			t, err = bchutil.NewTxFromReader(c16Reader(ctor, ref.input(ctor)))
 		default:
 			panic("C16: unknown transaction constructor " + ctor)
